@@ -215,6 +215,13 @@ pub struct StepStat {
     pub v: VerifStats,
 }
 
+#[derive(Clone, Debug, PartialEq)]
+pub enum TailOutcome {
+    Quiescent,
+    Stalled { since_us: u64 },
+    Cap,
+}
+
 #[derive(Default)]
 pub struct Trace {
     pub subs: [Vec<Sub>; 2],
@@ -289,6 +296,7 @@ pub struct SimPair {
     pub epoch: [u32; 2],
     pub trace: Trace,
     pub record_wire: bool,
+    pub record_stats: bool,
     pub fair: bool,
     seed: u64,
     latency_us: [u32; 2],
@@ -314,6 +322,7 @@ impl SimPair {
             epoch: [0, 0],
             trace: Trace::default(),
             record_wire: true,
+            record_stats: true,
             fair: false,
             seed: sc.seed,
             latency_us: [sc.links[0].latency_us, sc.links[1].latency_us],
@@ -431,6 +440,9 @@ impl SimPair {
     }
 
     pub fn snapshot(&mut self, e: usize) {
+        if !self.record_stats {
+            return;
+        }
         let st = StepStat {
             t_us: self.now_us,
             tick: self.tick_no,
@@ -511,6 +523,64 @@ impl SimPair {
                 break;
             }
         }
+    }
+
+    /// Fair phase driven by progress: both endpoints step every `step_us`; ends when quiescent,
+    /// when no progress indicator has moved for `stall_us` of virtual time, or at `cap_us`.
+    pub fn run_tail_progress(&mut self, step_us: u64, stall_us: u64, cap_us: u64) -> TailOutcome {
+        self.fair = true;
+        let start = self.now_us;
+        self.trace.tail_start_us = Some(start);
+        let step = step_us.max(1);
+        let mut last_sig = self.progress_signature();
+        let mut last_progress_us = self.now_us;
+        loop {
+            // the generated cadence is used for the first 30 virtual seconds; afterwards at least
+            // 20 ms, and at least 100 ms while nothing has moved for 5 s (any cadence is a valid
+            // schedule); this keeps hour-long crawls at the TFRC floor rate affordable
+            let idle = self.now_us - last_progress_us;
+            let cur = if idle > 5_000_000 {
+                step.max(100_000)
+            } else if self.now_us - start > 30_000_000 {
+                step.max(20_000)
+            } else {
+                step
+            };
+            self.advance(cur);
+            for e in 0..2 {
+                self.endpoint_step(e);
+            }
+            self.tick_no += 1;
+            if self.quiescent() {
+                self.trace.tail_quiescent = true;
+                return TailOutcome::Quiescent;
+            }
+            let sig = self.progress_signature();
+            if sig != last_sig {
+                last_sig = sig;
+                last_progress_us = self.now_us;
+            } else if self.now_us - last_progress_us >= stall_us {
+                return TailOutcome::Stalled { since_us: last_progress_us };
+            }
+            if self.now_us - start >= cap_us {
+                return TailOutcome::Cap;
+            }
+        }
+    }
+
+    /// Things that move when the connection makes headway (sync / keepalive frames do not count).
+    pub fn progress_signature(&self) -> Vec<u64> {
+        let mut v = vec![self.trace.delivs[0].len() as u64, self.trace.delivs[1].len() as u64];
+        for e in 0..2 {
+            let st = self.hc[e].verif_stats();
+            v.push(self.hc[e].send_buffer_size() as u64);
+            v.push(st.send_queue_len as u64);
+            v.push(st.pending_queue_len as u64);
+            v.push(st.resend_queue_len as u64);
+            v.push(st.tx_alloc as u64);
+            v.push(st.rx_alloc as u64);
+        }
+        v
     }
 
     pub fn run(sc: &PairScenario) -> Trace {
